@@ -4,11 +4,13 @@ import (
 	"context"
 	"encoding/json"
 	"strconv"
+	"strings"
 
 	"github.com/cespare/xxhash/v2"
 
 	"verif/plan"
 	"verif/sim/cluster"
+	"verif/sim/simnet"
 )
 
 // HKey mirrors olric's default key hash: xxhash64(dmap name + key).
@@ -33,6 +35,19 @@ func (r *Run) doCtlExtra(sc *plan.Script, op *plan.Op, rec *plan.Rec) bool {
 	switch op.K {
 	case "ctl.snapshot":
 		rec.Snap = r.Snapshot(op.Flag)
+	case "ctl.cut_backups":
+		r.cutBackups(op, rec)
+	case "ctl.heal_all":
+		r.healAll()
+	case "ctl.members":
+		m := r.C.Members[op.M]
+		mem, err := m.EC.Members(context.Background())
+		rec.Err, rec.N = Classify(err), len(mem)
+	case "ctl.newdmap":
+		// opening a DMap through the embedded client of member M
+		m := r.C.Members[op.M]
+		_, err := m.EC.NewDMap(op.DM + "x")
+		rec.Err = Classify(err)
 	case "ctl.get_all":
 		r.getAll(op, rec)
 	case "ctl.owner":
@@ -191,4 +206,54 @@ func (r *Run) backedUp(n int) (bool, string) {
 		}
 	}
 	return true, ""
+}
+
+// cutBackups makes `count` backup owners of key unreachable for RESP traffic from the primary
+// owner only (gossip keeps flowing, so they stay in the member list).
+func (r *Run) cutBackups(op *plan.Op, rec *plan.Rec) {
+	dmn := op.DM
+	if dmn == "" {
+		dmn = r.P.DMap
+	}
+	run := r.C.Running()
+	rt := run[0].DB.VerifLocalRouting()
+	route := rt[HKey(dmn, op.Key)%r.partitions()]
+	if len(route.PrimaryOwners) == 0 {
+		rec.Err = "other:no owner"
+		return
+	}
+	owner := clusterIdx(route.PrimaryOwners[len(route.PrimaryOwners)-1])
+	backups := route.ReplicaOwners
+	n := op.Count
+	if n > len(backups) {
+		n = len(backups)
+	}
+	var cut []string
+	st := simnet.LinkRefuse
+	if op.Dur == 1 {
+		st = simnet.LinkBlackhole
+	}
+	for i := 0; i < n; i++ {
+		b := backups[i]
+		if op.Flag {
+			b = backups[len(backups)-1-i]
+		}
+		r.N.SetLink(cluster.NodeOfIdx(owner), cluster.NodeOfIdx(clusterIdx(b)), simnet.ClassRESP, st)
+		cut = append(cut, "m"+itoa(clusterIdx(b)))
+		r.K.Count("fault.backup_unreachable", 1)
+	}
+	rec.Int = int64(owner)
+	rec.N = len(backups)
+	rec.Info = "owner=m" + itoa(owner) + " backups=" + itoa(len(backups)) + " cut=" + strings.Join(cut, ",")
+}
+
+func (r *Run) healAll() {
+	for _, a := range r.C.Members {
+		for _, b := range r.C.Members {
+			if a != nil && b != nil && a.Idx < b.Idx {
+				r.N.SetLink(a.Node, b.Node, -1, simnet.LinkUp)
+			}
+		}
+	}
+	r.K.Count("fault.heal", 1)
 }
